@@ -74,7 +74,32 @@ def _xmin(i, data):
     return 10.0 * i + 2 if data[i - 1][1] < data[i - 1][0] else 10.0 * i + 1
 
 
-def _compare(np, real, node, data, where, key, top):
+def _ids_below(node):
+    if node["kind"] == "leaf":
+        return list(node["ids"])
+    out = []
+    for kd in node["kids"]:
+        out += _ids_below(kd)
+    return out
+
+
+def _path_to(node, i):
+    if node["kind"] == "leaf":
+        return ["c%d" % i]
+    for k, kd in zip(node["keys"], node["kids"]):
+        if i in _ids_below(kd):
+            return [k] + _path_to(kd, i)
+    raise KeyError(i)
+
+
+def _label(node, i, da):
+    """spec LabelLaw: 0 -> the child's key; 3 -> the base case's name; 1 -> the whole path; 2 -> the path without the case's name"""
+    p = _path_to(node, i)
+    return [p[0]] if da == 0 else [p[-1]] if da == 3 else p if da == 1 else p[:-1]
+
+
+def _compare(np, real, node, data, where, key, top, ref=None):
+    """ref: the same node (followed by keys) in the spec tree as it was when form_extreme last ran - entries may be stale"""
     """projection of the real tree vs the spec tree; returns a message or None"""
     if node["kind"] == "leaf":
         if "cat" not in real or not hasattr(real["cat"], "ext"):
@@ -101,12 +126,25 @@ def _compare(np, real, node, data, where, key, top):
         want = (float(ex["mx"]), float(ex["mn"]))
         if e.ext.shape != (1, 2) or (float(e.ext[0, 0]), float(e.ext[0, 1])) != want:
             return "%s: extreme ext = %r, spec %r" % (where, e.ext.tolist(), want)
-        wx = (_xmax(ex["mxid"]), _xmin(ex["mnid"], data))
-        if e.ext_x is None or (float(e.ext_x[0, 0]), float(e.ext_x[0, 1])) != wx:
-            return "%s: extreme ext_x = %r, spec %r (base cases c%d / c%d)" % (where, None if e.ext_x is None else e.ext_x.tolist(), wx, ex["mxid"], ex["mnid"])
-        lab = (",".join(ex["maxcase"]), ",".join(ex["mincase"]))
-        if (e.maxcase[0], e.mincase[0]) != lab:
-            return "%s: labels (doappend=%d) = %r, spec %r" % (where, ex["da"], (e.maxcase[0], e.mincase[0]), lab)
+        if e.ext_x is None:
+            return "%s: extreme ext_x is None" % where
+        # label and abscissa must name ONE base case below this node that attains the value.  The spec's fold keeps the first one in
+        # traversal order; the statement does not say which of several tied cases is named, so any attaining case is accepted - its
+        # label follows the spec's declarative LabelLaw (path to that case, cut according to the doappend mode)
+        src = ref if (ref is not None and ref["kind"] == "node") else node
+        sub = dict(src, keys=list(ex["cases"]), kids=[src["kids"][list(src["keys"]).index(k)] for k in ex["cases"]]) \
+            if set(ex["cases"]) <= set(src["keys"]) else src
+        for col, val_, lab_, x_, xf, first in ((0, ex["mx"], e.maxcase[0], float(e.ext_x[0, 0]), _xmax, ex["mxid"]),
+                                              (1, ex["mn"], e.mincase[0], float(e.ext_x[0, 1]), lambda i: _xmin(i, data), ex["mnid"])):
+            if lab_ == ",".join(ex["maxcase"] if col == 0 else ex["mincase"]) and x_ == xf(first):
+                continue          # exactly the spec's entry (this also covers stale entries formed over an earlier shape of the tree)
+            try:
+                cands = [i for i in _ids_below(sub) if data[i - 1][col] == val_]
+            except KeyError:
+                cands = []
+            if not any(x_ == xf(i) and lab_ == ",".join(_label(sub, i, ex["da"])) for i in cands):
+                return "%s: %s label / abscissa (doappend=%d) = (%r, %r) name no base case attaining %r (spec: case c%d -> (%r, %r); attaining cases %r)" % (
+                    where, "max" if col == 0 else "min", ex["da"], lab_, x_, val_, first, ",".join(ex["maxcase"] if col == 0 else ex["mincase"]), xf(first), cands)
         if list(e.cases) != list(ex["cases"]):
             return "%s: extreme .cases = %r, spec %r" % (where, list(e.cases), list(ex["cases"]))
         if [float(v) for v in e.mx[0]] != [float(v) for v in ex["mxs"]] or [float(v) for v in e.mn[0]] != [float(v) for v in ex["mns"]]:
@@ -114,7 +152,10 @@ def _compare(np, real, node, data, where, key, top):
         if not top and e.event != key:
             _NAMING.append("%s: the nested extreme is named %r, its key is %r" % (where, e.event, key))
     for k, kd in zip(node["keys"], node["kids"]):
-        msg = _compare(np, real[k], kd, data, where + "/" + k, k, False)
+        rk = None
+        if ref is not None and ref["kind"] == "node" and k in list(ref["keys"]):
+            rk = ref["kids"][list(ref["keys"]).index(k)]
+        msg = _compare(np, real[k], kd, data, where + "/" + k, k, False, rk)
         if msg:
             return msg
     return None
@@ -187,12 +228,15 @@ def tree_part(run):
         try:
             real = _build(np, cla, SimpleNamespace, init, "top", data)
             msg = _compare(np, real, init, data, "after merge", "top", True)
+            formed = None
             for n, op in enumerate(hist):
                 if msg:
                     break
                 _apply(cla, real, op)
                 spec = states[(shape, repr(data), hk(hist[: n + 1]))][2]
-                msg = _compare(np, real, spec, data, "after %r" % (hist[: n + 1],), "top", True)
+                if op[0] == "form":
+                    formed = spec
+                msg = _compare(np, real, spec, data, "after %r" % (hist[: n + 1],), "top", True, formed)
         except Exception as ex:
             import traceback
             msg = "raised %r: %s" % (ex, traceback.format_exc()[-300:])
